@@ -134,6 +134,7 @@ type FnEnc struct {
 	storeCount map[*ssa.Alloc]int
 	paramVals  map[string]ssa.Value
 	defers     []*ssa.Defer
+	heapCache  map[string]string
 }
 
 type loopInfo struct {
@@ -208,6 +209,9 @@ func (f *FnEnc) oblige(kind, label string, tags []string, goal string, src strin
 	if goal == "true" {
 		return
 	}
+	if kind == "safe" && f.c != nil && f.c.SafeUnder != nil {
+		goal = fmt.Sprintf("(=> %s %s)", f.evalClause(f.c.SafeUnder, f.baseEnv(f.st)), goal)
+	}
 	if !f.wantTags(tags) {
 		// safety conditions hold on every execution that continues past this point (the runtime
 		// panics otherwise); callee preconditions are checked by the runs of their own properties.
@@ -270,6 +274,24 @@ func (f *FnEnc) compSort(name string) string {
 
 // heapTerm materialises the Heap value of state st.
 func (f *FnEnc) heapTerm(st *State) string {
+	var kb strings.Builder
+	for _, n := range f.e.reg.compOrd {
+		kb.WriteString(st.comps[n])
+		kb.WriteByte(' ')
+	}
+	key := kb.String()
+	if f.heapCache == nil {
+		f.heapCache = map[string]string{}
+	}
+	if h, ok := f.heapCache[key]; ok {
+		return h
+	}
+	h := f.heapTerm0(st)
+	f.heapCache[key] = h
+	return h
+}
+
+func (f *FnEnc) heapTerm0(st *State) string {
 	var b strings.Builder
 	b.WriteString("(mkHeap")
 	for _, n := range f.e.reg.compOrd {
@@ -922,4 +944,76 @@ func (f *FnEnc) evalClauseSt(expr *SX, env map[string]string, cur, old *State) s
 		}
 	}
 	return expr.subst(env2).String()
+}
+
+// heapWF returns, for heap component n holding term c, the fact that no stored pointer, slice or
+// interface payload refers beyond watermark w ("no dangling future references"), or "".
+func (f *FnEnc) heapWF(n, c, w string) string {
+	comp := f.e.reg.comps[n]
+	if comp == nil || comp.Ghost {
+		return ""
+	}
+	srt := comp.Sort
+	ptrLike := func(s string, v string) string {
+		switch s {
+		case "Slice":
+			return fmt.Sprintf("(<= (sl.arr %s) %s)", v, w)
+		case "Any":
+			return fmt.Sprintf("(=> (isPtrTid (a.tid %s)) (<= (a.val %s) %s))", v, v, w)
+		}
+		if si, ok := f.e.reg.structs[s]; ok {
+			var ps []string
+			for _, fi := range si.Fields {
+				sub := ""
+				fv := fmt.Sprintf("(%s.%s %s)", si.SortName, fi.Name, v)
+				if _, isPtr := fi.Type.Underlying().(*types.Pointer); isPtr {
+					sub = fmt.Sprintf("(<= %s %s)", fv, w)
+				} else {
+					sub = ptrLikeRec(f, fi.Sort, fv, w)
+				}
+				if sub != "" {
+					ps = append(ps, sub)
+				}
+			}
+			if len(ps) > 0 {
+				return "(and " + strings.Join(ps, " ") + ")"
+			}
+		}
+		return ""
+	}
+	if strings.HasPrefix(srt, "(Array Int (Array Int ") {
+		el := strings.TrimSuffix(strings.TrimPrefix(srt, "(Array Int (Array Int "), "))")
+		body := ptrLike(el, fmt.Sprintf("(select (select %s a) i)", c))
+		if body == "" {
+			return ""
+		}
+		return fmt.Sprintf("(forall ((a Int) (i Int)) (! %s :pattern ((select (select %s a) i))))", body, c)
+	}
+	if strings.HasPrefix(srt, "(Array Int ") && !strings.HasPrefix(srt, "(Array Int (") {
+		el := strings.TrimSuffix(strings.TrimPrefix(srt, "(Array Int "), ")")
+		v := fmt.Sprintf("(select %s r)", c)
+		body := ""
+		if el == "Int" {
+			if fid, ok := f.e.reg.fidByComp[n]; ok && f.e.ptrField[fid] {
+				body = fmt.Sprintf("(<= %s %s)", v, w)
+			}
+		} else {
+			body = ptrLike(el, v)
+		}
+		if body == "" {
+			return ""
+		}
+		return fmt.Sprintf("(forall ((r Int)) (! %s :pattern ((select %s r))))", body, c)
+	}
+	return ""
+}
+
+func ptrLikeRec(f *FnEnc, s, v, w string) string {
+	switch s {
+	case "Slice":
+		return fmt.Sprintf("(<= (sl.arr %s) %s)", v, w)
+	case "Any":
+		return fmt.Sprintf("(=> (isPtrTid (a.tid %s)) (<= (a.val %s) %s))", v, v, w)
+	}
+	return ""
 }
